@@ -154,6 +154,7 @@ func (w *World) runOp(t *simrt.Task, op *OpSpec, retry bool) *CallRec {
 	w.Calls = append(w.Calls, cr)
 	w.curCall[t.ID] = cr
 	cr.InvSeq = w.Sim.EventCount()
+	cr.tfBefore = w.Sim.TimeFaultEvents
 	cr.LatestAtStart = w.Latest().N
 	cr.HandleVerAtStart = hs.Version
 	var before dirSnap
@@ -375,6 +376,13 @@ func (s dirSnap) diff(o dirSnap) string {
 // afterOp runs the per-call monitors (observer mode).
 func (w *World) afterOp(t *simrt.Task, hs *HandleState, cr *CallRec, before dirSnap) {
 	w.noteState()
+	cr.TimeFaulted = w.Sim.TimeFaultEvents > cr.tfBefore
+	if cr.TimeFaulted {
+		w.probe("call-under-time-fault")
+		if cr.Class == "error" {
+			w.probe("call-failed-under-time-fault")
+		}
+	}
 	latest := w.Latest()
 	isAdd := cr.Kind == OpAdd || cr.Kind == OpAddMulti
 
@@ -403,7 +411,7 @@ func (w *World) afterOp(t *simrt.Task, hs *HandleState, cr *CallRec, before dirS
 		switch {
 		case cr.Class == "ok" && nonEmpty > 0 && cr.Appends == 0:
 			w.violate("C04", "ack-mismatch", "ok-without-commit/"+cr.Kind, fmt.Sprintf("%s returned success but no commit of its %d table(s) happened", cr.Kind, nonEmpty))
-		case cr.Class != "ok" && cr.Appends > 0:
+		case cr.Class != "ok" && cr.Appends > 0 && !cr.TimeFaulted:
 			w.violate("C04", "ack-mismatch", "error-after-commit/"+cr.Kind+"/"+errSite(cr.Err), fmt.Sprintf("%s returned %q although its transaction was committed", cr.Kind, cr.Err))
 		case cr.Class == "ok" && nonEmpty == 0 && cr.Appends > 0:
 			w.violate("C04", "ack-mismatch", "empty-created-table/"+cr.Kind, "a transaction without records created a table")
@@ -432,8 +440,12 @@ func (w *World) afterOp(t *simrt.Task, hs *HandleState, cr *CallRec, before dirS
 				w.probe("rejected-" + strings.SplitN(r, ":", 2)[0])
 			}
 		}
-		if !justified && w.TimeFaults && cr.Appends > 0 {
-			justified = true // indeterminate: failure after the commit point under time faults
+		if !justified && cr.TimeFaulted && cr.Class == "error" {
+			// Oracle relaxation under faults, deliberate and narrow: a
+			// call that was itself slowed down or saw the clock jump may
+			// report failure (reload deadline); it must still never
+			// return wrong data - every other monitor stays on.
+			justified = true
 		}
 		if !justified {
 			msg := ""
@@ -493,7 +505,7 @@ func (w *World) afterOp(t *simrt.Task, hs *HandleState, cr *CallRec, before dirS
 			w.violate("C04", "fresh-open", cr.Kind, fmt.Sprintf("NewStack returned version %d although version %d was committed before it was called", hs.Version, cr.LatestAtStart))
 		}
 	}
-	if (cr.Kind == OpOpen || cr.Kind == OpReopen) && cr.Class == "error" {
+	if (cr.Kind == OpOpen || cr.Kind == OpReopen) && cr.Class == "error" && !cr.TimeFaulted {
 		// opening a directory whose list is healthy must succeed
 		w.violate("C05", "open-fails", "newstack/"+errSite(cr.Err), fmt.Sprintf("NewStack failed: %v", cr.Err))
 	}
@@ -525,7 +537,7 @@ func (w *World) afterOp(t *simrt.Task, hs *HandleState, cr *CallRec, before dirS
 		}
 	}
 	// Clean succeeds whenever the list lock is free and the handle is current (C16)
-	if cr.Kind == OpClean && cr.Class != "ok" && cr.Class != "panic" && !cr.StaleAtStart && !cr.SawLockEEXIST && !w.TimeFaults && !w.staleByOthers(hs, cr) {
+	if cr.Kind == OpClean && cr.Class != "ok" && cr.Class != "panic" && !cr.StaleAtStart && !cr.SawLockEEXIST && !cr.TimeFaulted && !w.staleByOthers(hs, cr) {
 		w.violate("C16", "clean-failed", cr.Class+"/"+errSite(cr.Err), fmt.Sprintf("Clean through a current handle with the lock free failed: %v", cr.Err))
 	}
 }
